@@ -177,6 +177,7 @@ def run(ctx):
     # ---------------- S: re-run, edit/regenerate, strace, kill ----------------
     s_rerun(ctx, cli, work)
     s_rerun_sizes(ctx, cli, work)
+    s_case_twins(ctx, cli, work)
     s_edit_sequences(ctx, cli, work, rng)
     s_strace(ctx, cli, work)
     s_readonly_update(ctx, cli, work)
@@ -284,6 +285,37 @@ def s_rerun_sizes(ctx, cli, work):
             ctx.violation("re-running on unchanged inputs touched %r (inode/mtime/content); outputs of %r bytes" % (diff, {p: len(v[2]) for p, v in t1.items()}),
                           {"cli_args": ["H.qml"], "qml": "%d labels bound to e.text" % nb, "history": ["generate-ui", "generate-ui"], "impl_output": diff,
                            "theorem_or_correspondence": "C15_rerun_is_silent / S"})
+
+
+def s_case_twins(ctx, cli, work):
+    """sources whose paths differ only in letter case (two files of one directory, two directories): each gets ITS outputs, holding the translation of ITS text"""
+    for variant, files, args, expect in (
+            ("twin-files", {"FooBar.qml": DOC_STATIC % "first", "Foobar.qml": DOC_STATIC % "second"}, ["--no-lowercase-file-name", "FooBar.qml", "Foobar.qml"],
+             {"FooBar.ui": "first", "Foobar.ui": "second"}),
+            ("twin-files-one-named", {"FooBar.qml": DOC_STATIC % "first", "Foobar.qml": DOC_STATIC % "second"}, ["--no-lowercase-file-name", "FooBar.qml"], {"FooBar.ui": "first"}),
+            ("twin-directories", {"ui/Form.qml": DOC_STATIC % "lower", "UI/Form.qml": DOC_STATIC % "upper"}, ["-O", "out", "ui/Form.qml", "UI/Form.qml"],
+             {"out/ui/form.ui": "lower", "out/UI/form.ui": "upper"}),
+            ("twin-directories-reversed", {"ui/Form.qml": DOC_STATIC % "lower", "UI/Form.qml": DOC_STATIC % "upper"}, ["-O", "out", "UI/Form.qml", "ui/Form.qml"],
+             {"out/ui/form.ui": "lower", "out/UI/form.ui": "upper"})):
+        base = os.path.join(work, "case-" + variant)
+        for f, t in files.items():
+            os.makedirs(os.path.dirname(os.path.join(base, f)) or base, exist_ok=True)
+            open(os.path.join(base, f), "w").write(t)
+        rc, err = run_cli(cli, base, args)
+        ctx.count(("case-twins", variant), True)
+        ctx.dist("case-twin-sources")
+        if rc != 0:
+            ctx.violation("generate-ui fails on sources whose paths differ in letter case: %s" % err[-300:], {"cli_args": args, "files": files, "impl_output": err[-600:]})
+            continue
+        t = tree(base)
+        outs = sorted(p for p in t if p.endswith(".ui"))
+        if outs != sorted(expect):
+            ctx.violation("sources %r: the .ui files written are %r, expected %r" % (args, outs, sorted(expect)), {"cli_args": args, "files": files, "impl_output": outs,
+                          "theorem_or_correspondence": "C15_names / S"})
+            continue
+        for p, title in expect.items():
+            if ("<string notr=\"true\">%s</string>" % title).encode() not in t[p][2]:
+                ctx.violation("%s does not hold the translation of its own source (text %r expected)" % (p, title), {"cli_args": args, "files": files, "impl_output": t[p][2].decode("utf-8", "replace")[:600]})
 
 
 def s_edit_sequences(ctx, cli, work, rng):
